@@ -372,6 +372,8 @@ def fam_shape(tier, kind=R):
         for nm in (2, 3):
             # the argument has length-1 axes of its own besides the ones ndmin prepends
             yield c("array", "np.array(x,ndmin=%d) on shape %r" % (nm, shp), lambda np, x, _n=nm: np.array(x, ndmin=_n), [kind(*shp)])
+    yield c("append", "np.append(c, [x[0]*2, x[1]**2]) list of traced scalars, axis=None", lambda np, x: np.append(onp.array([1.0, 2.0]), [x[0] * 2.0, x[1] ** 2]), [kind(2)])
+    yield c("append", "np.append(x, (x[0], 3.0)) traced base and a tuple of scalars", lambda np, x: np.append(x, (x[0] * x[1], 3.0)), [kind(2)])
     yield c("array", "np.array(x,copy=True)", lambda np, x: np.array(x, copy=True), [kind(2)])
     yield c("asarray", "np.asarray(x)", lambda np, x: np.asarray(x), [kind(2)])
     yield c("r_", "np.r_[x,y]", lambda np, x, y: np.r_[x, y], [kind(2), kind(3)], 0)
@@ -1199,6 +1201,21 @@ def index_grid(tier):
             out.append(Config("getitem", "IDX rank-0 mix order %s" % "".join(pat), f0, [R()], 0, tags=("index", "mix")))
             if L <= 3 or tier == "thorough":
                 out.append(Config("getitem", "IDX rank-0 pick x[2] mix order %s" % "".join(pat), lambda np, x, _f=f0: _f(np, x[2]), [R(3)], 0, tags=("index", "mix")))
+    # two sibling values joined by a same-shape pass-through node (s = u + v hands ONE cotangent array to both parents),
+    # with indexed and dense uses of s, u and v in every order
+    def _sib(np, x, order):
+        u, v = np.sin(x), np.cos(x)
+        s_ = u + v
+        terms = [lambda: np.sum(s_[[0, 0, 2]] ** 2), lambda: np.sum(s_ ** 2) * 0.5, lambda: np.sum(u[[2, 1, 1]] ** 3), lambda: np.sum(v[::-1] ** 2 * onp.array([1.0, 2.0, 3.0]))]
+        tot = None
+        for i in order:
+            t = terms[i]()
+            tot = t if tot is None else tot + t
+        return tot
+
+    perms = list(itertools.permutations(range(4)))
+    for od in (perms if tier == "thorough" else perms[::2]):
+        out.append(Config("getitem", "IDX sibling values sharing a cotangent, uses in order %s" % "".join(map(str, od)), lambda np, x, _o=od: _sib(np, x, _o), [R(3)], 0, tags=("index", "mix")))
     # the same with array-valued outputs and nested indexing
     out.append(Config("getitem", "IDX x[1:][::-1][[0,0]] chained", lambda np, x: x[1:][::-1][[0, 0]], [R(3)], 0, tags=("index",)))
     out.append(Config("getitem", "IDX x[idx] * x + x[idx2] array-valued mix", lambda np, x: x[[0, 0, 2]] * x + x[::-1], [R(3)], 0, tags=("index", "mix")))
@@ -1249,6 +1266,8 @@ def container_grid(tier):
     c("tuple of scalars: indexed reads then two concatenations", lambda np, t, k: (t + (k,))[0] * (t + (k,))[1] * 2.0 + ((k,) + t)[1] * ((k,) + t)[2] * 3.0 + t[0] * np.sin(t[1]), [(SC, SC), SC])
     c("list of scalars placed twice in a container then indexed", lambda np, l: (lambda a, b: a[0][0] * a[1][1] + b[0][1] * 2.0 + l[0] * l[1] * l[0])([l, l], [l, 1.0]), [[SC, SC]])
     c("dict of scalars: whole-dict uses through values() twice, then key reads", lambda np, d: sum(v * float(i + 1) for i, v in enumerate(d.values())) + sum(v * v for v in d.values()) + d["a"] * np.cos(d["b"]), [{"a": SC, "b": SC}])
+    c("tuple of scalars consumed WHOLE four times (dense container cotangents only)", lambda np, t, k: sum((t + (k,))[0] * (t + (k,))[1] * float(i + 1) + (t + (k,))[2] for i in range(4)), [(SC, SC), SC])
+    c("list of a scalar and an array placed three times in a constructor", lambda np, l: (lambda a: sum(a[i][0] * float(i + 1) + np.sum(a[i][1]) for i in range(3)))([l, l, l]), [[SC, R(2)]])
     c("len / in / unpacking", lambda np, t: (lambda a, b: np.sum(a * b) * len(t))(*t), [(R(2), R(2))])
     c("wrt second container argument", lambda np, x, t: np.sum(x * t[0]) + t[1] * np.sum(x), [R(2), (R(2), SC)], 1)
     c("wrt array next to a container", lambda np, x, t: np.sum(x * t[0]) + t[1] * np.sum(x), [R(2), (R(2), SC)], 0)
